@@ -30,8 +30,32 @@ def getRtmrs (fixed : Bool) (q : Option QuoteV4) : Outcome Bank :=
     | none => if fixed then .ok [] else .panic
     | some t => bankLoop 0 t.rtmrs
 
-/-- `ParseCcelWithTdQuote`: verify, validate, bank, replay — in this order, a state only at the very end -/
-def parseCcel {State : Type} (verify validate : Outcome Unit) (q : Option QuoteV4) (replay : Bank → Outcome State) : Outcome State :=
-  verify >>= fun _ => validate >>= fun _ => getRtmrs true q >>= replay
+/-- what a Go function of type `(*State, error)` hands back: both, either or neither can be set.  go-eventlog's
+    `ReplayAndExtract` returns a (partial) state TOGETHER with an error when the replay succeeded but an extraction step failed
+    ("no GRUB measurements found" for a log without GRUB events) -/
+structure GoRet (State : Type) where
+  state : Option State
+  err : Option String
+deriving Repr, DecidableEq
+
+/-- `ParseCcelWithTdQuote`: verify, validate, bank, replay — in this order; every failure before the replay returns
+    `(nil, err)`; the replay's own pair is handed back unchanged (`return ccel.ReplayAndExtract(…)`) -/
+def parseCcel {State : Type} (verify validate : Outcome Unit) (q : Option QuoteV4) (replay : Bank → Outcome (GoRet State)) :
+    Outcome (GoRet State) :=
+  match verify with
+  | .panic => .panic
+  | .err e => .ok ⟨none, some e⟩
+  | .ok _ =>
+    match validate with
+    | .panic => .panic
+    | .err e => .ok ⟨none, some e⟩
+    | .ok _ =>
+      match getRtmrs true q with
+      | .panic => .panic
+      | .err e => .ok ⟨none, some e⟩
+      | .ok bank =>
+        match replay bank with
+        | .err e => .ok ⟨none, some e⟩     -- (convenience: an `Outcome.err` replay is the pair (nil, err))
+        | r => r
 
 end Tdx.Ccel
